@@ -1,8 +1,405 @@
 import PyresampleModel.Model.C07
+import PyresampleModel.Props.C18
 
 /-
-  C07 — property theorems (stub: none yet).
+  C07 — property theorems for bucket resampling (all point clouds, data lists, sizes, chunkings).
 -/
 namespace PyresampleModel.C07
+open PyresampleModel.Grid
+
+/-- the raveled bucket index names exactly the containing cell (negative = outside the area) -/
+theorem ravel_eq_cellOf (g : Grid) (x y : Rat) :
+    ravelIdx g x y = (match cellOf g x y with
+      | some (r, c) => (r : Int) * g.w + c
+      | none => (-1) * (g.w : Int) + (-1)) := by
+  simp only [ravelIdx, cellOf]
+  split
+  · rename_i h
+    simp only [Int.toNat_of_nonneg h.1, Int.toNat_of_nonneg h.2.2.1]
+  · rfl
+
+theorem ravel_neg_iff (g : Grid) (x y : Rat) : ravelIdx g x y < 0 ↔ cellOf g x y = none := by
+  rw [ravel_eq_cellOf]
+  cases h : cellOf g x y with
+  | none => simp; omega
+  | some p =>
+    obtain ⟨r, c⟩ := p
+    simp
+    have : (0 : Int) ≤ (r : Int) * g.w := by positivity
+    omega
+
+/-! ### histograms -/
+
+theorem aux_histCount_length (idxs : List Int) (size : Nat) : (histCount idxs size).length = size := by
+  simp [histCount]
+
+theorem histCount_get (idxs : List Int) (size b : Nat) (hb : b < size) :
+    (histCount idxs size)[b]? = some ((idxs.filter (fun i => i == (b : Int))).length) := by
+  simp [histCount, hb]
+
+theorem aux_addLists_sum : ∀ (a b : List Nat), a.length = b.length → (addLists a b).sum = a.sum + b.sum := by
+  intro a
+  induction a with
+  | nil => intro b h; cases b <;> simp_all [addLists]
+  | cons x xs ih =>
+    intro b h
+    cases b with
+    | nil => simp at h
+    | cons y ys =>
+      simp only [addLists, List.zipWith_cons_cons, List.sum_cons]
+      have := ih ys (by simpa using h)
+      simp only [addLists] at this
+      omega
+
+theorem aux_histCount_cons (i : Int) (is : List Int) (size : Nat) :
+    histCount (i :: is) size = addLists (histCount [i] size) (histCount is size) := by
+  simp only [histCount, addLists, List.zipWith_map, List.zipWith_self, List.filter_cons]
+  apply List.map_congr_left
+  intro b _
+  by_cases h : i == (b : Int)
+  · simp [h]; omega
+  · simp [h]
+
+theorem aux_indicator_sum (i : Int) (size : Nat) :
+    (histCount [i] size).sum = if 0 ≤ i ∧ i < size then 1 else 0 := by
+  induction size with
+  | zero => simp [histCount]
+  | succ n ih =>
+    have : histCount [i] (n + 1) = histCount [i] n ++ [if i == (n : Int) then 1 else 0] := by
+      simp only [histCount, List.range_succ, List.map_append, List.map_cons, List.map_nil, List.filter_cons, List.filter_nil]
+      congr 1
+      by_cases h : i == (n : Int) <;> simp [h]
+    rw [this, List.sum_append, ih]
+    simp only [List.sum_cons, List.sum_nil, Nat.add_zero]
+    by_cases h1 : 0 ≤ i ∧ i < (n : Int)
+    · have h3 : ¬ (i == (n : Int)) = true := by simp; omega
+      have h2 : 0 ≤ i ∧ i < ((n + 1 : Nat) : Int) := by push_cast; omega
+      rw [if_pos h1, if_neg h3, if_pos h2]
+    · by_cases h3 : i = n
+      · have h4 : (i == (n : Int)) = true := by simp [h3]
+        have h2 : 0 ≤ i ∧ i < ((n + 1 : Nat) : Int) := by push_cast; omega
+        rw [if_neg h1, if_pos h4, if_pos h2]
+      · have h4 : ¬ (i == (n : Int)) = true := by simp [h3]
+        have h2 : ¬ (0 ≤ i ∧ i < ((n + 1 : Nat) : Int)) := by push_cast; omega
+        rw [if_neg h1, if_neg h4, if_neg h2]
+
+/-- **count conservation**: the per-cell counts sum to the number of points that fall inside the area -/
+theorem count_total (idxs : List Int) (size : Nat) :
+    (histCount idxs size).sum = (idxs.filter (fun i => decide (0 ≤ i ∧ i < (size : Int)))).length := by
+  induction idxs with
+  | nil => simp [histCount]
+  | cons i is ih =>
+    rw [aux_histCount_cons, aux_addLists_sum _ _ (by simp [aux_histCount_length]), ih, aux_indicator_sum]
+    simp only [List.filter_cons]
+    by_cases h : 0 ≤ i ∧ i < (size : Int)
+    · simp [h]; omega
+    · simp [h]
+
+theorem aux_addLists_zero (a : List Nat) : addLists (List.replicate a.length 0) a = a := by
+  induction a with
+  | nil => rfl
+  | cons x xs ih => simp [addLists, List.replicate_succ] at ih ⊢; exact ih
+
+theorem aux_addLists_assoc : ∀ (a b c : List Nat), addLists (addLists a b) c = addLists a (addLists b c) := by
+  intro a
+  induction a with
+  | nil => intro b c; simp [addLists]
+  | cons x xs ih =>
+    intro b c
+    cases b with
+    | nil => simp [addLists]
+    | cons y ys =>
+      cases c with
+      | nil => simp [addLists]
+      | cons z zs =>
+        simp only [addLists, List.zipWith_cons_cons] at ih ⊢
+        rw [ih ys zs]; simp; omega
+
+theorem histCount_append (a b : List Int) (size : Nat) :
+    histCount (a ++ b) size = addLists (histCount a size) (histCount b size) := by
+  induction a with
+  | nil =>
+    have := aux_addLists_zero (histCount b size)
+    rw [aux_histCount_length] at this
+    simpa [histCount] using this.symm
+  | cons i is ih =>
+    rw [List.cons_append, aux_histCount_cons, ih, aux_histCount_cons i is, aux_addLists_assoc]
+
+theorem aux_foldl_hist (size : Nat) : ∀ (chunks : List (List Int)) (acc : List Int),
+    chunks.foldl (fun acc ch => addLists acc (histCount ch size)) (histCount acc size) =
+      histCount (acc ++ chunks.flatten) size := by
+  intro chunks
+  induction chunks with
+  | nil => intro acc; simp
+  | cons c cs ih =>
+    intro acc
+    simp only [List.foldl_cons, List.flatten_cons]
+    rw [← histCount_append, ih, List.append_assoc]
+
+/-- **chunk invariance of the histogram**: summing per-chunk histograms, for any chunking of the
+point list, gives the histogram of the whole list -/
+theorem histCount_chunk_invariant (chunks : List (List Int)) (size : Nat) :
+    histCountChunked chunks size = histCount chunks.flatten size := by
+  have h0 : List.replicate size 0 = histCount [] size := by
+    simp [histCount]
+  unfold histCountChunked
+  rw [h0, aux_foldl_hist]; simp
+
+
+/-! ### sort-based per-cell minimum / maximum -/
+
+theorem aux_leNan_trans : ∀ a b c : Option Rat, leNan a b = true → leNan b c = true → leNan a c = true := by
+  intro a b c
+  cases a <;> cases b <;> cases c <;> simp [leNan]
+  intro h1 h2; exact le_trans h1 h2
+
+theorem aux_leNan_total : ∀ a b : Option Rat, (leNan a b || leNan b a) = true := by
+  intro a b
+  cases a <;> cases b <;> simp [leNan]
+  exact le_total _ _
+
+theorem aux_find_first {α} (le : α → α → Bool) (p : α → Bool) :
+    ∀ (l : List α), l.Pairwise (fun a b => le a b = true) → ∀ a, l.find? p = some a →
+      ∀ b ∈ l, p b = true → (b = a ∨ le a b = true) := by
+  intro l
+  induction l with
+  | nil => intro _ a h; simp at h
+  | cons x xs ih =>
+    intro hp a hf b hb hpb
+    rw [List.pairwise_cons] at hp
+    rw [List.find?_cons] at hf
+    by_cases hx : p x = true
+    · rw [hx] at hf
+      simp at hf; subst hf
+      rcases List.mem_cons.mp hb with rfl | hb
+      · left; rfl
+      · right; exact hp.1 b hb
+    · have hx' : p x = false := by simpa using hx
+      rw [hx'] at hf
+      rcases List.mem_cons.mp hb with rfl | hb
+      · rw [hpb] at hx'; cases hx'
+      · exact ih hp.2 a hf b hb hpb
+
+/-- values of the points of bin `b` -/
+def binVals (idxs : List Int) (data : List (Option Rat)) (b : Nat) : List (Option Rat) :=
+  ((idxs.zip data).filter (fun p => p.1 == (b : Int))).map (·.2)
+
+theorem aux_binStat_get (isMax : Bool) (idxs : List Int) (data : List (Option Rat)) (size b : Nat) (hb : b < size) :
+    (binStat isMax idxs data size)[b]? = some
+      (match (if isMax then ((idxs.zip data).mergeSort (fun p q => leNan p.2 q.2)).reverse
+              else (idxs.zip data).mergeSort (fun p q => leNan p.2 q.2)).find? (fun p => p.1 == (b : Int)) with
+       | some p => p.2
+       | none => none) := by
+  simp only [binStat, List.getElem?_map, List.getElem?_range hb, Option.map_some]
+  rfl
+
+/-- **per-cell minimum / maximum**: for every cell, the sort-and-take-first procedure returns NaN
+iff the cell holds no point, and otherwise a value of a point of that cell that is ≤ (min) resp.
+≥ (max) every value in the cell (in numpy's sort order, where NaN is largest). -/
+theorem binStat_spec (isMax : Bool) (idxs : List Int) (data : List (Option Rat)) (size b : Nat) (hb : b < size) :
+    (binVals idxs data b = [] → (binStat isMax idxs data size)[b]? = some none) ∧
+    (binVals idxs data b ≠ [] → ∃ m ∈ binVals idxs data b, (binStat isMax idxs data size)[b]? = some m ∧
+      ∀ v ∈ binVals idxs data b, (if isMax then leNan v m else leNan m v) = true) := by
+  rw [aux_binStat_get isMax idxs data size b hb]
+  let le : (Int × Option Rat) → (Int × Option Rat) → Bool := fun p q => leNan p.2 q.2
+  have hsorted : ((idxs.zip data).mergeSort le).Pairwise (fun a b => le a b = true) :=
+    List.pairwise_mergeSort (fun a b c => aux_leNan_trans a.2 b.2 c.2) (fun a b => aux_leNan_total a.2 b.2) _
+  have hperm := List.mergeSort_perm (idxs.zip data) le
+  -- the list that is scanned, and its order relation
+  let order := if isMax then ((idxs.zip data).mergeSort le).reverse else (idxs.zip data).mergeSort le
+  let ole : (Int × Option Rat) → (Int × Option Rat) → Bool := fun p q => if isMax then le q p else le p q
+  have hord : order.Pairwise (fun a b => ole a b = true) := by
+    cases isMax
+    · simp [order, ole]; exact hsorted
+    · simp only [order, ole, if_true]
+      rw [List.pairwise_reverse]; exact hsorted
+  have hmem : ∀ p, p ∈ order ↔ p ∈ idxs.zip data := by
+    intro p
+    cases isMax
+    · simpa [order] using hperm.mem_iff
+    · simp only [order, if_true, List.mem_reverse]; exact hperm.mem_iff
+  show (binVals idxs data b = [] → some (match order.find? (fun p => p.1 == (b : Int)) with
+        | some p => p.2 | none => none) = some none) ∧ _
+  constructor
+  · intro hnil
+    cases hf : order.find? (fun p => p.1 == (b : Int)) with
+    | none => rfl
+    | some p =>
+      exfalso
+      have h1 := List.find?_some hf
+      have h2 : p ∈ idxs.zip data := (hmem p).mp (List.mem_of_find?_eq_some hf)
+      have : p.2 ∈ binVals idxs data b := by
+        simp only [binVals, List.mem_map, List.mem_filter]
+        exact ⟨p, ⟨h2, h1⟩, rfl⟩
+      rw [hnil] at this; simp at this
+  · intro hne
+    cases hf : order.find? (fun p => p.1 == (b : Int)) with
+    | none =>
+      exfalso
+      apply hne
+      simp only [binVals, List.map_eq_nil_iff, List.filter_eq_nil_iff]
+      intro p hp hpb
+      have := List.find?_eq_none.mp hf p ((hmem p).mpr hp)
+      exact this hpb
+    | some p =>
+      have h1 := List.find?_some hf
+      have h2 : p ∈ idxs.zip data := (hmem p).mp (List.mem_of_find?_eq_some hf)
+      refine ⟨p.2, ?_, rfl, ?_⟩
+      · simp only [binVals, List.mem_map, List.mem_filter]
+        exact ⟨p, ⟨h2, h1⟩, rfl⟩
+      · intro v hv
+        simp only [binVals, List.mem_map, List.mem_filter] at hv
+        obtain ⟨q, ⟨hq, hqb⟩, rfl⟩ := hv
+        rcases aux_find_first ole _ order hord p hf q ((hmem q).mpr hq) hqb with rfl | h
+        · cases isMax <;> simp <;> (have := aux_leNan_total q.2 q.2; simp at this; exact this)
+        · cases isMax <;> simpa [ole, le] using h
+
+
+/-! ### weighted histogram (sums) -/
+
+theorem aux_foldl_add (l : List (Int × Rat)) (a : Rat) :
+    l.foldl (fun acc p => acc + p.2) a = a + (l.map (·.2)).sum := by
+  induction l generalizing a with
+  | nil => simp
+  | cons x xs ih => simp only [List.foldl_cons, List.map_cons, List.sum_cons]; rw [ih]; ring
+
+/-- per-cell sum = sum of the weights of exactly the points whose index is that cell -/
+theorem histSum_get (idxs : List Int) (w : List Rat) (size b : Nat) (hb : b < size) :
+    (histSum idxs w size)[b]? = some ((((idxs.zip w).filter (fun p => p.1 == (b : Int))).map (·.2)).sum) := by
+  simp only [histSum, List.getElem?_map, List.getElem?_range hb, Option.map_some, aux_foldl_add, zero_add]
+
+theorem aux_histSum_length (idxs : List Int) (w : List Rat) (size : Nat) : (histSum idxs w size).length = size := by
+  simp [histSum]
+
+theorem aux_addListsQ_sum : ∀ (a b : List Rat), a.length = b.length → (addLists a b).sum = a.sum + b.sum := by
+  intro a
+  induction a with
+  | nil => intro b h; cases b <;> simp_all [addLists]
+  | cons x xs ih =>
+    intro b h
+    cases b with
+    | nil => simp at h
+    | cons y ys =>
+      simp only [addLists, List.zipWith_cons_cons, List.sum_cons]
+      have := ih ys (by simpa using h)
+      simp only [addLists] at this
+      rw [this]; ring
+
+theorem aux_histSum_cons (i : Int) (v : Rat) (is : List Int) (ws : List Rat) (size : Nat) :
+    histSum (i :: is) (v :: ws) size = addLists (histSum [i] [v] size) (histSum is ws size) := by
+  simp only [histSum, addLists, List.zipWith_map, List.zipWith_self, List.zip_cons_cons, List.filter_cons, aux_foldl_add,
+    List.zip_nil_right, List.filter_nil]
+  apply List.map_congr_left
+  intro b _
+  by_cases h : i == (b : Int)
+  · simp [h]
+  · simp [h]
+
+theorem aux_indicatorQ_sum (i : Int) (v : Rat) (size : Nat) :
+    (histSum [i] [v] size).sum = if 0 ≤ i ∧ i < (size : Int) then v else 0 := by
+  induction size with
+  | zero => simp [histSum]
+  | succ n ih =>
+    have : histSum [i] [v] (n + 1) = histSum [i] [v] n ++ [if i == (n : Int) then v else 0] := by
+      simp only [histSum, List.range_succ, List.map_append, List.map_cons, List.map_nil, List.zip_cons_cons,
+        List.zip_nil_right, List.filter_cons, List.filter_nil, aux_foldl_add]
+      congr 1
+      by_cases h : i == (n : Int) <;> simp [h]
+    rw [this, List.sum_append, ih]
+    simp only [List.sum_cons, List.sum_nil, add_zero]
+    by_cases h1 : 0 ≤ i ∧ i < (n : Int)
+    · have h3 : ¬ (i == (n : Int)) = true := by simp; omega
+      have h2 : 0 ≤ i ∧ i < ((n + 1 : Nat) : Int) := by push_cast; omega
+      rw [if_pos h1, if_neg h3, if_pos h2]; ring
+    · by_cases h3 : i = n
+      · have h4 : (i == (n : Int)) = true := by simp [h3]
+        have h2 : 0 ≤ i ∧ i < ((n + 1 : Nat) : Int) := by push_cast; omega
+        rw [if_neg h1, if_pos h4, if_pos h2]; ring
+      · have h4 : ¬ (i == (n : Int)) = true := by simp [h3]
+        have h2 : ¬ (0 ≤ i ∧ i < ((n + 1 : Nat) : Int)) := by push_cast; omega
+        rw [if_neg h1, if_neg h4, if_neg h2]; ring
+
+/-- **sum conservation**: the per-cell sums add up to the total weight of the points inside the area -/
+theorem sum_total : ∀ (idxs : List Int) (w : List Rat) (size : Nat), idxs.length = w.length →
+    (histSum idxs w size).sum =
+      (((idxs.zip w).filter (fun p => decide (0 ≤ p.1 ∧ p.1 < (size : Int)))).map (·.2)).sum := by
+  intro idxs
+  induction idxs with
+  | nil => intro w size _; simp [histSum]
+  | cons i is ih =>
+    intro w size hl
+    cases w with
+    | nil => simp at hl
+    | cons v ws =>
+      rw [aux_histSum_cons, aux_addListsQ_sum _ _ (by simp [aux_histSum_length]), ih ws size (by simpa using hl),
+        aux_indicatorQ_sum]
+      simp only [List.zip_cons_cons, List.filter_cons]
+      by_cases h : 0 ≤ i ∧ i < (size : Int)
+      · simp [h]
+      · simp [h]
+
+
+/-! ### tie to the reference cell semantics of C18 -/
+
+theorem aux_cellOf_bounds (g : Grid) (x y : Rat) (r c : Nat) (h : cellOf g x y = some (r, c)) :
+    c < g.w ∧ r < g.h := by
+  simp only [cellOf] at h
+  split at h
+  · rename_i hv
+    simp only [Option.some.injEq, Prod.mk.injEq] at h
+    omega
+  · simp at h
+
+theorem ravel_eq_iff (g : Grid) (x y : Rat) (r c : Nat) (hc : c < g.w) :
+    ravelIdx g x y = ((r * g.w + c : Nat) : Int) ↔ cellOf g x y = some (r, c) := by
+  rw [ravel_eq_cellOf]
+  cases h : cellOf g x y with
+  | none =>
+    simp only [reduceCtorEq, iff_false]
+    have : (0 : Int) ≤ ((r * g.w + c : Nat) : Int) := by positivity
+    omega
+  | some p =>
+    obtain ⟨r', c'⟩ := p
+    obtain ⟨hc', _⟩ := aux_cellOf_bounds g x y r' c' h
+    simp only [Option.some.injEq, Prod.mk.injEq]
+    constructor
+    · intro he
+      have he' : r' * g.w + c' = r * g.w + c := by exact_mod_cast he
+      have h1 : (r' * g.w + c') / g.w = (r * g.w + c) / g.w := by rw [he']
+      have h2 : (r' * g.w + c') % g.w = (r * g.w + c) % g.w := by rw [he']
+      have hw : 0 < g.w := by omega
+      rw [Nat.mul_comm r', Nat.mul_comm r, Nat.mul_add_div hw, Nat.mul_add_div hw,
+        Nat.div_eq_of_lt hc', Nat.div_eq_of_lt hc] at h1
+      rw [Nat.mul_comm r', Nat.mul_comm r, Nat.mul_add_mod, Nat.mul_add_mod, Nat.mod_eq_of_lt hc', Nat.mod_eq_of_lt hc] at h2
+      exact ⟨by omega, h2⟩
+    · rintro ⟨rfl, rfl⟩; push_cast; ring
+
+/-- **exact membership, per cell**: `get_count` of cell (r, c) is the number of points whose
+projected position lies in the extent of cell (r, c) -/
+theorem cell_count (g : Grid) (pts : List (Rat × Rat)) (r c : Nat) (hc : c < g.w) (hr : r < g.h) :
+    (histCount (pts.map (fun p => ravelIdx g p.1 p.2)) (g.h * g.w))[r * g.w + c]? =
+      some ((pts.filter (fun p => decide (cellOf g p.1 p.2 = some (r, c)))).length) := by
+  have hb : r * g.w + c < g.h * g.w := by
+    have : (r + 1) * g.w ≤ g.h * g.w := Nat.mul_le_mul_right _ hr
+    rw [Nat.add_mul, Nat.one_mul] at this
+    omega
+  rw [histCount_get _ _ _ hb]
+  congr 1
+  rw [List.filter_map, List.length_map]
+  congr 1
+  apply List.filter_congr
+  intro p _
+  simp only [Function.comp]
+  have hiff := ravel_eq_iff g p.1 p.2 r c hc
+  by_cases h : cellOf g p.1 p.2 = some (r, c)
+  · simp [h, hiff.mpr h]
+  · have : ¬ ravelIdx g p.1 p.2 = ((r * g.w + c : Nat) : Int) := fun e => h (hiff.mp e)
+    simp [h]
+    intro e; apply this; rw [e]; push_cast; ring
+
+/-! non-vacuity -/
+example : binVals [0, 0, 1, 3, -5] [some 3, some 1, none, some 2, some 7] 0 = [some 3, some 1] := by
+  decide +kernel
+example : histCount [0, 0, 1, 3, -5] 4 = [2, 1, 0, 1] := by decide
 
 end PyresampleModel.C07
